@@ -23,8 +23,10 @@ sessions    : scenarios are grouped in sessions of 2-3 that run one after the ot
               KeepsNew / NotRemoved.  A violation's replay detail carries the session history.
 spec -> code: the live roots of Unmerge_MC are small enough that the random generator covers their shapes;
               the Merge_Cases pairs are replayed as replace scenarios (old package = the pre-existing objects).
-Carve-outs (fate wild): a listed non-directory whose live object is a directory (only generated at engine
-level, where the live type is used), a listed directory whose live object is no directory.  The engine's
+Fate wild (either kept or removed is accepted, the REST of the unmerge must be carried out and nothing below
+or behind the object may change): a listed non-directory (file, symlink, fifo) whose live object is a
+directory - empty or not; generated at every level - and a listed directory whose live object is a file or a
+symlink.  The engine's
 default plugin triggers (ldconfig, info regen) are disabled: they spawn helpers and write etc/ld.so.*.
 Base directories are protected at engine level only (the trigger); the list is the property's
 (usr usr/lib* usr/bin usr/sbin bin sbin lib* etc var home root).
@@ -112,6 +114,11 @@ def gen_scenario(r_, size, via=None, alias=None, tops=None, cross=False):
         live.append(o)
         return True
 
+    def now_dir(p):
+        """a listed non-directory whose live object has become a directory, empty or with unlisted content"""
+        if put(p, "dir") and r_.random() < 0.5:
+            put(p + "/inner", r_.choice(["file", "dir"]), content="user data")
+
     def phys(p):
         if alias and (p == "lib" or p.startswith("lib/")):
             return alias + p[3:]
@@ -131,9 +138,11 @@ def gen_scenario(r_, size, via=None, alias=None, tops=None, cross=False):
         if x < 0.08:
             continue  # gone
         if e["type"] == "dir":
-            if x < 0.14 and via == "engine":
+            if x < 0.14:   # a listed directory that is a symlink now (rmdir: ENOTDIR, tolerated)
                 put("elsewhere", "dir")
                 put(p, "sym", target=os.path.relpath("elsewhere", os.path.dirname(p) or "."))
+            elif x < 0.18:  # ... or a plain file
+                put(p, "file", content="was a directory")
             else:
                 put(p, "dir", **kw)
                 if r_.random() < 0.3:
@@ -141,10 +150,14 @@ def gen_scenario(r_, size, via=None, alias=None, tops=None, cross=False):
         elif e["type"] == "file":
             if x < 0.13:
                 put(p, "sym", target="tgt")
-            elif x < 0.17 and via != "ops":
-                put(p, "dir")
+            elif x < 0.19:
+                now_dir(p)
             else:
                 put(p, "file", content=e["content"], **kw)
+        elif e["type"] == "sym" and x < 0.16:
+            now_dir(p)
+        elif e["type"] == "fifo" and x < 0.2:
+            now_dir(p)
         elif e["type"] == "sym":
             put(p, "sym", target=e["target"], **kw)
             # what the symlink points to is not owned
